@@ -106,6 +106,13 @@ def _register_encode_glue():
             code2, _, _, _, cellvars2, _ = f((body,), (Cellvar("unused_cell", 1),), ("fv",), tp)
             units2 = [(code2[i], code2[i + 1]) for i in range(0, len(code2), 2)]
             ctx.prove("post.free_variable_operand_counts_unreferenced_cells_too", z3.BoolVal(cellvars2 == ("cell", "unused_cell") and units2[4][1] == 2 and units2[3][1] == 0), detail=repr((cellvars2, units2[3:5])))
+            # a name that is a cell AND a free variable of the same code object (a class body that reads the enclosing __class__ while its own methods close over theirs):
+            # the two operands stay distinct - Cellvar indexes the cells, Freevar indexes after them
+            both = (Instruction(opn("hasfree"), Cellvar("__class__"), line_number=1), Instruction(opn("hasfree"), Freevar("__class__"), line_number=1), Instruction(opn("hasfree"), Cellvar("other"), line_number=1),
+                    Instruction(opn("hasfree"), Freevar("outer"), line_number=1), Instruction("RETURN_VALUE", line_number=1))
+            code4, _, _, _, cellvars4, _ = f((both,), (), ("__class__", "outer"), tp)
+            u4 = [code4[i + 1] for i in range(0, len(code4), 2)]
+            ctx.prove("post.a_name_that_is_both_cell_and_free_keeps_two_distinct_operands", z3.BoolVal(cellvars4 == ("__class__", "other") and u4[:4] == [0, 2, 1, 3]), detail=repr((cellvars4, u4)))
             if tp:
                 ctx.prove("post.co_varnames_starts_with_the_parameters_in_CPython_layout(positional, keyword-only, *args, **kwargs)",
                           z3.BoolVal(varnames[:5] == ("p", "a", "k", "rest", "kw") and varnames[5:] == ("loc",)), detail=repr(varnames))
@@ -126,7 +133,7 @@ def _register_encode_glue():
             code3, lm3, _, _, _, _ = f((wide,), (), (), None)
             ctx.prove("post.every_unit_of_a_prefixed_last_instruction_has_its_line(C10: table covers the whole code)",
                       z3.BoolVal(len(code3) == 8 and lm3.offset_to_line == {0: 7, 2: 9, 4: 9, 6: 9}), detail=repr((len(code3), lm3.offset_to_line)))
-        harness("blocks.blocks_to_bytes.table_seeding[%s]" % kind, props=["C01", "C03", "C05", "C04", "C10"], functions=["code_data._blocks.blocks_to_bytes", "code_data._args.args_to_varnames"],
+        harness("blocks.blocks_to_bytes.table_seeding[%s]" % kind, props=["C01", "C03", "C05", "C04", "C10", "C06"], functions=["code_data._blocks.blocks_to_bytes", "code_data._args.args_to_varnames"],
                 configs="all", engine="E2",
                 notes="bounded (one concrete six-instruction block per code kind): the encoder seeds co_varnames with the parameters in CPython's layout and pins the docstring - also an "
                       "empty one - at constant 0; free variables index after the cells; every unit gets its line")(h)
